@@ -192,7 +192,8 @@ def model_term(case, shape, bs):
         return f'np_plan {dims}'
     w = case.get('window') or [0, 0, 0, 0]
     # (irregular files go through the same producer loop; only the buffer fill differs)
-    return f'sf_plan {dims} {w[0]} {w[2]} {"Minimal" if case["route"] == "segy_rio" else "Segyio"}'
+    # (a conversion window that is not the whole file makes the producer fall back from the reduced-I/O reader to segyio)
+    return f'sf_plan {dims} {w[0]} {w[2]} {"Minimal" if case["route"] == "segy_rio" and not case.get("window") else "Segyio"}'
 
 
 def run_case(case, keep=False):
@@ -342,6 +343,13 @@ def cases_3d():
         i0, x0 = rng.randrange(1, 4), rng.randrange(1, 4)
         i1, x1 = rng.randrange(i0 + 2, n_il + 1), rng.randrange(x0 + 2, n_xl + 1)
         out.append(dict(route='segy', shape=[n_il, n_xl, n_s], bpv=bpv, bs=list(bs), seed=rng.randrange(2 ** 31), window=[i0, i1, x0, x1]))
+        if j % 2 == 0:
+            # an inline-only window (every crossline kept), through both readers: the reduced-I/O reader must fall back or be
+            # right; and a window starting at ordinal 0
+            sd = rng.randrange(2 ** 31)
+            for route in ('segy_rio', 'segy'):
+                out.append(dict(route=route, shape=[n_il, n_xl, n_s], bpv=bpv, bs=list(bs), seed=sd, window=[i0, i1, 0, n_xl]))
+            out.append(dict(route='segy_rio', shape=[n_il, n_xl, n_s], bpv=bpv, bs=list(bs), seed=sd, window=[0, i1 - 1, 0, x1]))
     # sources holding NaN, +-Inf, -0.0 and denormals (IEEE SEG-Y through both readers, NumPy arrays)
     for j in range(3 if quick else 12):
         bpv, bs = LAYOUTS_3D[(5 * j + 1) % 6]
